@@ -80,10 +80,28 @@ def pointer_keyed_decls(src):
         first = first.strip()
         if not first.endswith('*'):
             continue
+        # a comparator argument (3rd of map/multimap, 2nd of set/multiset): not the address order
+        nargs = 1
+        depth = 0
+        for ch in inner:
+            if ch == '<':
+                depth += 1
+            elif ch == '>':
+                depth -= 1
+            elif ch == ',' and depth == 0:
+                nargs += 1
+        is_map = 'map' in src[m.start():lt]
+        if 'unordered' not in src[m.start():lt] and nargs >= (3 if is_map else 2):
+            continue
         d = re.match(r'\s*\*?\s*(\w+)\s*(?:;|=|\{|\()', src[end:end + 200])
         if not d:
             continue                      # an expression (new std::map<...>()), a return type, ...
         if d.group(1) in ('const', 'operator'):
+            continue
+        if re.search(r'\btypedef\s*$', src[max(0, m.start() - 40):m.start()]):
+            # a type name: the variables declared with it
+            for v in re.finditer(r'\b%s\s*\*?\s*(\w+)\s*(?:;|=|\{)' % re.escape(d.group(1)), src):
+                yield v.group(1), re.sub(r'\s+', ' ', first), v.start()
             continue
         yield d.group(1), re.sub(r'\s+', ' ', first), m.start()
 
